@@ -5,7 +5,7 @@ Line-protocol driver for the sub-check C03R (risk-check utilities and default ri
 Every op is independent (no state).
 
 Ops
-  `chk dec <limit> <input>` | `chk int <limit> <input>` | `chk f64 <limit> <input>` (`nan` allowed)
+  `chk dec <limit> <input>` | `chk int <limit> <input>` | `chk f64 <limit> <input>` (`nan`, `inf`, `-inf` allowed)
         → `name CheckHigherThan`, `check ok` | `check fail <limit> <input>`, (`int`: `msg <Display>` on fail)
   `notional <quantity> <price> <contract_size>`                 → `notional <v|none>`
   `notionalk <spot|perp|fut|opt> <contract_size> <quantity> <price>` → `csize <v>`, `notional <v|none>`
@@ -16,16 +16,36 @@ Ops
   `appr <int>`                                                  → `item <int>`, `disp <int>`
   `refuse <int> <rec|unrec>`                                    → `item <int>`, `unrec <0|1>`
   `refuses <int> <word>`                                        → `item <int>`, `reason <word>`
+
+`notional` / `notionalk` / `delta` run `notionalDec` / `deltaDec` (the real `Decimal` multiplication
+with its rounding, `Model/Risk.lean`); their arguments must themselves be `Decimal`s (`decExact`:
+at most 28 fractional digits and a mantissa below 2^96 — the harness's `str::parse::<Decimal>` would
+round anything else), otherwise `bad-op`.
+
+Spec mode speaks only where the theorems of `Props/C03R.lean` determine the answer from the inputs:
+the exact product where every intermediate product (in the code's order) is exactly representable
+(`notional_exact_of_no_rounding`, `delta_exact_of_no_rounding`); `none` / `panic` where a product of
+exactly known operands has magnitude ≥ 2^96 (`mul_overflow_bounds`); silent wherever a product is
+rounded (the value is then given by the model only: correspondence).
 -/
 namespace BarterModel.Driver.C03R
 open BarterModel.Driver BarterModel.Risk
 
 def fmtF64 : F64 → String
   | .nan => "nan"
+  | .pinf => "inf"
+  | .ninf => "-inf"
   | .val r => fmtRat r
 
 def parseF64 (s : String) : Option F64 :=
-  if s == "nan" then some .nan else (parseRat? s).map .val
+  if s == "nan" then some .nan
+  else if s == "inf" then some .pinf
+  else if s == "-inf" then some .ninf
+  else (parseRat? s).map .val
+
+/-- an op argument that is a `Decimal` -/
+def parseDec? (s : String) : Option Rat :=
+  (parseRat? s).bind fun r => if decExact r then some r else none
 
 def parseSide : String → Option Side
   | "B" => some .buy
@@ -113,16 +133,16 @@ def model : Drv Unit where
         (s, ("name " ++ CheckHigherThan.name) :: checkLines fmtF64 (CheckHigherThan.check F64.le ⟨l⟩ i))
       | _, _ => bad
     | ["notional", q, p, c] =>
-      match parseRat? q, parseRat? p, parseRat? c with
-      | some q, some p, some c => (s, ["notional " ++ fmtOptRat (calculateQuoteNotional decFits q p c)])
+      match parseDec? q, parseDec? p, parseDec? c with
+      | some q, some p, some c => (s, ["notional " ++ fmtOptRat (notionalDec q p c)])
       | _, _, _ => bad
     | ["notionalk", k, c, q, p] =>
-      match parseRat? c, parseRat? q, parseRat? p with
+      match parseDec? c, parseDec? q, parseDec? p with
       | some c, some q, some p =>
         match parseKind k c with
         | some k =>
           (s, ["csize " ++ fmtRat k.contractSize,
-               "notional " ++ fmtOptRat (calculateQuoteNotional decFits q p k.contractSize)])
+               "notional " ++ fmtOptRat (notionalDec q p k.contractSize)])
         | none => bad
       | _, _, _ => bad
     | ["apd", c, o] =>
@@ -130,9 +150,9 @@ def model : Drv Unit where
       | some c, some o => (s, ["apd " ++ fmtOptRatApprox (calculateAbsPercentDifference decFits c o)])
       | _, _ => bad
     | ["delta", d, c, sd, q] =>
-      match parseRat? d, parseRat? c, parseSide sd, parseRat? q with
+      match parseDec? d, parseDec? c, parseSide sd, parseDec? q with
       | some d, some c, some sd, some q =>
-        match calculateDelta decFits d c sd q with
+        match deltaDec d c sd q with
         | some v => (s, ["delta " ++ fmtRat v])
         | none => (s, ["panic"])
       | _, _, _, _ => bad
@@ -166,12 +186,25 @@ def model : Drv Unit where
       | none => bad
     | _ => bad
 
-/-- `{none|v}`: the spec allows either answer (an intermediate product overflowed although the
-final value is representable). -/
-def notionalSpecTok (exact qp : Rat) : String :=
-  if !decFits exact then "none"
-  else if decFits qp then fmtRat exact
-  else "{none|" ++ fmtRat exact ++ "}"
+/-- 2^96: a product of this magnitude or more always overflows (`mul_overflow_bounds`). -/
+def pow96 : Rat := 79228162514264337593543950336
+
+/-- What the theorems determine about `a.checked_mul(b)?.checked_mul(c)` from the inputs alone
+(`first = a·b`, `second = a·b·c` as exact values, `value` the documented result): the exact value
+when neither product rounds; `none` when a product of exactly known operands is ≥ 2^96 in
+magnitude; nothing (`none` of the option) where a product is rounded. -/
+def twoMulSpec (first second value : Rat) : Option (Option Rat) :=
+  if decExact first then
+    if decExact second then some (some value)
+    else if pow96 ≤ second.abs then some none
+    else none
+  else if pow96 ≤ first.abs then some none
+  else none
+
+def notionalSpecLines (first second value : Rat) : List String :=
+  match twoMulSpec first second value with
+  | some r => ["notional " ++ fmtOptRat r]
+  | none => []
 
 def spec : Drv Unit where
   init := ()
@@ -191,16 +224,16 @@ def spec : Drv Unit where
       | some l, some i => (s, checkLines fmtF64 (specCheckF64 l i))
       | _, _ => bad
     | ["notional", q, p, c] =>
-      match parseRat? q, parseRat? p, parseRat? c with
-      | some q, some p, some c => (s, ["notional " ++ notionalSpecTok (specNotional q p c) (q * p)])
+      match parseDec? q, parseDec? p, parseDec? c with
+      | some q, some p, some c => (s, notionalSpecLines (q * p) (q * p * c) (specNotional q p c))
       | _, _, _ => bad
     | ["notionalk", k, c, q, p] =>
-      match parseRat? c, parseRat? q, parseRat? p with
+      match parseDec? c, parseDec? q, parseDec? p with
       | some c, some q, some p =>
         match parseKind k c with
         | some k =>
           -- the spec for a kind: quantity × price (× multiplier unless spot)
-          (s, ["notional " ++ notionalSpecTok (specNotionalKind k q p) (q * p)])
+          (s, notionalSpecLines (q * p) (specNotionalKind k q p) (specNotionalKind k q p))
         | none => bad
       | _, _, _ => bad
     | ["apd", c, o] =>
@@ -214,10 +247,12 @@ def spec : Drv Unit where
         else (s, [])
       | _, _ => bad
     | ["delta", d, c, sd, q] =>
-      match parseRat? d, parseRat? c, parseSide sd, parseRat? q with
+      match parseDec? d, parseDec? c, parseSide sd, parseDec? q with
       | some d, some c, some sd, some q =>
-        if decFits (q * c) && decFits (d * (q * c)) then (s, ["delta " ++ fmtRat (specDelta d c sd q)])
-        else (s, [])
+        match twoMulSpec (q * c) (d * (q * c)) (specDelta d c sd q) with
+        | some (some v) => (s, ["delta " ++ fmtRat v])
+        | some none => (s, ["panic"])
+        | none => (s, [])
       | _, _, _, _ => bad
     | "rm" :: st :: rest =>
       match st.toNat?, splitReqs rest with
